@@ -26,7 +26,7 @@ import "github.com/mdzio/go-mqtt/message"
 //@   flag args self, msg
 //@   flag impls (*MemTopics).Retain
 //@   ensures[ghostdef-retain] gfield(0, "nretain") == old(gfield(0, "nretain"))+1 && gfield(0, "lastretain") == msg
-//@   modifies allfields(rnode), allfields(snode), allfields(MemTopics), allmaps(map[string]*rnode), msg.remlen, msg.dirty, msg.packetID, elems(msg.packetID), message.gPacketID, gfield(0, "encn"), gfield(0, "encarr"), gfield(0, "encoff"), gfield(0, "encAt"), gfield(0, "nretain"), gfield(0, "lastretain")
+//@   modifies freshobjs(message.header), freshobjs(message.PublishMessage), freshelems(byte), allfields(rnode), allfields(snode), allfields(MemTopics), allmaps(map[string]*rnode), msg.remlen, msg.dirty, msg.packetID, elems(msg.packetID), message.gPacketID, gfield(0, "encn"), gfield(0, "encarr"), gfield(0, "encoff"), gfield(0, "encAt"), gfield(0, "nretain"), gfield(0, "lastretain")
 
 // Ghost: nlookup counts subscriber lookups (C01: every message handed on is looked up, whatever else happened to it).
 //@ func (*Manager).Subscribers
@@ -41,7 +41,7 @@ import "github.com/mdzio/go-mqtt/message"
 //@   results err
 //@   requires m.p != nil
 //@   ensures[C08:passed-on] gfield(0, "nretain") == old(gfield(0, "nretain"))+1 && gfield(0, "lastretain") == msg
-//@   modifies allfields(rnode), allfields(snode), allfields(MemTopics), allmaps(map[string]*rnode), msg.remlen, msg.dirty, msg.packetID, elems(msg.packetID), message.gPacketID, gfield(0, "encn"), gfield(0, "encarr"), gfield(0, "encoff"), gfield(0, "encAt"), gfield(0, "nretain"), gfield(0, "lastretain")
+//@   modifies freshobjs(message.header), freshobjs(message.PublishMessage), freshelems(byte), allfields(rnode), allfields(snode), allfields(MemTopics), allmaps(map[string]*rnode), msg.remlen, msg.dirty, msg.packetID, elems(msg.packetID), message.gPacketID, gfield(0, "encn"), gfield(0, "encarr"), gfield(0, "encoff"), gfield(0, "encAt"), gfield(0, "nretain"), gfield(0, "lastretain")
 
 // Subscribe: grants min(requested, MaxQosAllowed); a rejected filter or QoS yields QosFailure (0x80) and an error.
 // Ghost log (per goroutine): the k-th Subscribe call (k = nsub before the call) records the filter it was given
@@ -160,7 +160,7 @@ import "github.com/mdzio/go-mqtt/message"
 //@   ensures[C08:stored-content-clean] len(topic) == 0 && err == nil && !old(msg.dirty) && message.vdefPubParsed(msg) ==> rn.msg.mtypeflags[0] == old(msg.mtypeflags[0]) && eqbytes(rn.msg.payload, msg.payload) && eqbytes(rn.msg.topic, msg.topic)
 //@   ensures[C08:failed-keeps] len(topic) == 0 && err != nil ==> rn.msg == old(rn.msg) && sameslice(rn.buf, old(rn.buf))
 //@   ensures[C08:leaf-only] len(topic) == 0 ==> rn.rnodes == old(rn.rnodes)
-//@   modifies allfields(rnode), allmaps(map[string]*rnode), msg.remlen, msg.dirty, msg.packetID, elems(msg.packetID), message.gPacketID, gfield(0, "encn"), gfield(0, "encarr"), gfield(0, "encoff"), gfield(0, "encAt")
+//@   modifies freshobjs(message.header), freshobjs(message.PublishMessage), freshelems(byte), allfields(rnode), allmaps(map[string]*rnode), msg.remlen, msg.dirty, msg.packetID, elems(msg.packetID), message.gPacketID, gfield(0, "encn"), gfield(0, "encarr"), gfield(0, "encoff"), gfield(0, "encAt")
 
 // rremove (C08): at the last level the node's message is dropped; on the way back a child is unlinked exactly when
 // it holds no message and has no children left.
@@ -198,7 +198,7 @@ import "github.com/mdzio/go-mqtt/message"
 //@   atcall (*rnode).rremove requires[C08:clear-on-empty] len(msg.payload) == 0 && callee_rn == mt.rroot && sameslice(callee_topic, msg.topic) && held(addr(mt.rmu))
 //@   atcall (*rnode).rinsert requires[C08:store-otherwise] len(msg.payload) != 0 && callee_rn == mt.rroot && sameslice(callee_topic, msg.topic) && callee_msg == msg && held(addr(mt.rmu))
 //@   ensures[inv] vdefRTrie(mt.rroot.rnodes) && mt.rroot == old(mt.rroot)
-//@   modifies allfields(rnode), allmaps(map[string]*rnode), msg.remlen, msg.dirty, msg.packetID, elems(msg.packetID), message.gPacketID, gfield(0, "encn"), gfield(0, "encarr"), gfield(0, "encoff"), gfield(0, "encAt")
+//@   modifies freshobjs(message.header), freshobjs(message.PublishMessage), freshelems(byte), allfields(rnode), allmaps(map[string]*rnode), msg.remlen, msg.dirty, msg.packetID, elems(msg.packetID), message.gPacketID, gfield(0, "encn"), gfield(0, "encarr"), gfield(0, "encoff"), gfield(0, "encAt")
 
 // ---------------------------------------------------------------- subscription trie (C06)
 // Type invariant of the child maps of the subscription trie: every child link leads to a node that has a map and
